@@ -1184,6 +1184,11 @@ impl<'a, S: Source + 'a> Constructed<'a, S> {
             else {
                 // Indefinite constructed value. Simply push a `None` to the
                 // stack, if the caller likes it.
+                if self.mode == Mode::Der {
+                    return Err(self.content_err(
+                        "indefinite length constructed in DER mode"
+                    ))
+                }
                 if let Err(err) = op(tag, constructed, stack.len()) {
                     return Err(self.content_err(err));
                 }
